@@ -196,6 +196,11 @@ NA = {
 
 def main() -> None:
     props = [json.loads(l)["id"] for l in (VERIF / "properties.jsonl").read_text().splitlines() if l.strip()]
+    # further claims, one JSON file per property (same fields as the CLAIMED entries): tools/claims/Cxx.json
+    for p in sorted((VERIF / "tools" / "claims").glob("C*.json")):
+        c = json.loads(p.read_text())
+        assert c["level"] in ("proof", "exploration", "other") and all(k in c for k in ("text", "note", "technique")), p
+        CLAIMED[p.stem] = c
     checks = []
     for pid in props:
         if pid not in CLAIMED:
